@@ -510,6 +510,52 @@ class Builder:
                     lines.append(pad + 'ghost_%s_ser_%s = 1;   /* serializer(%s), line %s */' % (mode, m, m, ln))
                 for m in other:
                     lines.append(pad + 'ghost_%s_set_%s = 1;   /* %s mentioned outside a serializer() call, line %s */' % (mode, m, m, ln))
+        # ---- re-attachment calls (pseudo-exclusions CALL_<member function>): a non-owning pointer member that is not
+        # transferred must be re-attached after unpacking for EVERY object: the named call has to occur in the part of
+        # serializeOp that runs when unpacking, inside loops only -- under no condition other than the isSerializing()
+        # test, and in no loop whose body can skip it (continue / break / return / goto)
+        reattach = {}
+        for key in [k for k in excl if k.startswith('CALL_')]:
+            fn = key[5:]
+            found = {'n': 0, 'guarded': 0, 'pack_only': 0}
+
+            def scan(st, guards, in_unpack):
+                k = st.get('kind')
+                if k == 'IfStmt':
+                    inner = [y for y in st.get('inner', []) if y]
+                    ct = cond_text(inner[0])
+                    if ct == '!ghost_serializing':
+                        scan(inner[1], guards, True)
+                        if len(inner) > 2:
+                            scan(inner[2], guards, False)
+                    elif ct == 'ghost_serializing':
+                        scan(inner[1], guards, False)
+                        if len(inner) > 2:
+                            scan(inner[2], guards, True)
+                    else:
+                        for y in inner[1:]:
+                            scan(y, guards + 1, in_unpack)
+                    return
+                if k in ('ForStmt', 'WhileStmt', 'CXXForRangeStmt', 'DoStmt'):
+                    bodies = [y for y in st.get('inner', []) if y and y.get('kind') in ('CompoundStmt', 'IfStmt', 'ForStmt', 'CXXForRangeStmt', 'WhileStmt', 'ExprWithCleanups', 'CXXMemberCallExpr', 'CallExpr')]
+                    skips = any(z.get('kind') in ('ContinueStmt', 'BreakStmt', 'ReturnStmt', 'GotoStmt') for y in bodies for z in walk(y))
+                    for y in bodies[-1:]:
+                        scan(y, guards + (1 if skips else 0), in_unpack)
+                    return
+                if k in ('CompoundStmt', 'SwitchStmt'):
+                    for y in st.get('inner', []):
+                        if y:
+                            scan(y, guards + (1 if k == 'SwitchStmt' else 0), in_unpack)
+                    return
+                for y in walk(st):
+                    if y.get('kind') in ('MemberExpr', 'CXXDependentScopeMemberExpr') and (y.get('name') or y.get('member')) == fn:
+                        found['n'] += 1
+                        if guards:
+                            found['guarded'] += 1
+                        if not in_unpack:
+                            found['pack_only'] += 1
+            scan(body, 0, True)
+            reattach[fn] = found
         out = ['_Bool verif_nondet_bool(void);', 'void harness(void)', '{', '    _Bool ghost_serializing;']
         for f in fields:
             out.append('    _Bool ghost_pack_ser_%s = 0, ghost_pack_set_%s = 0, ghost_unpack_ser_%s = 0, ghost_unpack_set_%s = 0;' % (f, f, f, f))
@@ -519,6 +565,11 @@ class Builder:
             lines = []
             emit(body, 1, lines, mode)
             out += lines
+        for fn, found in reattach.items():
+            out.append('    /* re-attachment by %s(): %d call site(s) in serializeOp, %d under a condition or in a loop that can skip it, %d outside the unpack pass */' % (
+                fn, found['n'], found['guarded'], found['pack_only']))
+            out.append('    __CPROVER_assert(%d, "%s::serializeOp/re-attaches by %s when unpacking");' % (1 if found['n'] > found['pack_only'] else 0, short, fn))
+            out.append('    __CPROVER_assert(%d, "%s::serializeOp/re-attaches by %s for every object, under no condition");' % (0 if found['guarded'] else 1, short, fn))
         for f in fields:
             if f in excl:
                 out.append('    /* %s excluded: %s */' % (f, excl[f]))
